@@ -5,7 +5,7 @@
    interleaving of client calls, per-channel deliveries (OSrv c / OCli c), disconnects, clock
    ticks and housekeeping runs, because `ops` is universally quantified. *)
 From OlaBase Require Import Bytes.
-From C04 Require Import Gen Model Proofs Once Fidelity.
+From C04 Require Import Gen Model Proofs Once Fidelity Safe Merge Wf Fidelity2 Fifo.
 Local Open Scope N_scope.
 
 (* constants regenerated from the headers equal the numbers the property text uses *)
@@ -44,7 +44,7 @@ Theorem c04_fidelity_partial : forall st c x d p,
   st_now st <> 0 -> dmx_set d <> [] ->
   find_uni (sv_unis (st_sv st)) (u_id x) = Some x ->
   (u_srcs x = [] \/ exists b, u_srcs x = [(c, b)]) ->
-  NoDup (u_sinks x) ->
+  NoDup (u_sinks x) -> st_pend st = [] ->
   (forall s, In s (u_sinks x) -> sv_alive (st_sv st) s = true /\ k_closed (st_cl st s) = false) ->
   let st' := apply_dmx st c x d p in
   cd_find (sv_cdata (st_sv st')) (c, u_id x)
@@ -69,16 +69,16 @@ Print Assumptions c04_client_delivery.
 
 (* PARTIAL (local form of FIFO): a send by a connected client goes to the tail of its channel and
    the server always handles the head.  The history-level statement (applied sequence is a prefix
-   of the sent sequence under every schedule; ghost logs st_sent/st_applied) is NOT proved. *)
+   of the sent sequence under every schedule; ghost logs st_sent/st_applied) is NOT proved here. *)
 Theorem c04_fifo_partial : forall st c,
   (forall u p d, k_closed (st_cl st c) = false ->
      k_c2s (st_cl (fst (fst (step st (OSend false true c u p d)))) c) = k_c2s (st_cl st c) ++ [RStream u d p]) /\
   (forall r rest, sv_alive (st_sv st) c = true -> k_c2s (st_cl st c) = r :: rest ->
      let k := st_cl st c in
-     let st1 := set_cl st c {| k_closed := k_closed k; k_out := k_out k; k_c2s := rest; k_s2c := k_s2c k |} in
-     fst (srv_step st c) = match snd (handle_req st1 c r) with
-                           | None => fst (handle_req st1 c r)
-                           | Some m => send_to (fst (handle_req st1 c r)) c m end).
+     let st1 := set_busy (set_cl st c {| k_closed := k_closed k; k_out := k_out k; k_c2s := rest; k_s2c := k_s2c k |}) true in
+     fst (srv_step st c) = flush (set_busy (match snd (handle_req st1 c r) with
+                                            | None => fst (handle_req st1 c r)
+                                            | Some m => send_to (fst (handle_req st1 c r)) c m end) false)).
 Proof.
   intros st c. split.
   - intros u p d Hc. cbn [step]. rewrite Hc. cbn. unfold updf. rewrite N.eqb_refl. reflexivity.
@@ -111,6 +111,7 @@ Print Assumptions c04_not_connected.
    id, frame, active priority, merge mode and name; every other client keeps its session, its
    stored frames, its source/sink memberships (per universe), and its channels and request table. *)
 Theorem c04_disconnect : forall st c,
+  st_busy st = false ->
   let st' := kill st c in
   let sv := st_sv st in let sv' := st_sv st' in
   sv_alive sv' c = false /\
@@ -129,34 +130,132 @@ Theorem c04_disconnect : forall st c,
   (forall y, y <> c -> st_cl st' y = st_cl st y) /\
   st_done st' = st_done st /\ st_hz st' = st_hz st.
 Proof.
-  intros st c. cbn zeta.
+  intros st c Hb. cbn zeta.
   pose proof (client_removed_spec (st_sv st) c) as H. cbn zeta in H.
   destruct H as (H1 & H2 & H3 & H4 & H5 & H6 & H7 & H8 & H9 & H10 & H11).
-  unfold kill. cbn.
+  unfold kill. rewrite Hb. cbn.
   repeat (split; [assumption|]).
   split; [|split; reflexivity].
   intros y Hy. unfold updf. destruct (y =? c) eqn:E; [apply N.eqb_eq in E; congruence|reflexivity].
 Qed.
 Print Assumptions c04_disconnect.
 
-(* the close event of a stopped client whose requests have all been read is exactly that *)
+(* the close event of a stopped client whose requests have all been read: the channel is
+   unregistered and OlaServer::ClientRemoved runs from the event loop right afterwards *)
 Theorem c04_close_event : forall st c,
   sv_alive (st_sv st) c = true -> k_closed (st_cl st c) = true -> k_c2s (st_cl st c) = [] ->
-  srv_step st c = (kill st c, 2).
-Proof. intros st c Ha Hc Hq. unfold srv_step. rewrite Ha, Hc, Hq. reflexivity. Qed.
+  st_pend st = [] -> st_busy st = false ->
+  srv_step st c = (kill (set_pend st []) c, 2).
+Proof.
+  intros st c Ha Hc Hq Hp Hb. unfold srv_step. rewrite Ha, Hc, Hq. cbn [negb].
+  unfold close_chan, flush. rewrite Hp. reflexivity.
+Qed.
 Print Assumptions c04_close_event.
 
-(* REFUTED on today's code ("a client that disconnects at any point never disturbs the daemon"):
-   there is a schedule in which OlaServer::ClientRemoved runs inside Universe::UpdateDependants
-   (hazard flag of the model; heap-use-after-free in the implementation, finding
-   C04-sink-push-reentrant-close): client 0 registers for universe 1, stops, and client 2's frame
-   for universe 1 is handled before the server has seen the close. *)
-Theorem c04_disconnect_safe_refuted : exists n ops, st_hz (run (init_state n) ops) = true.
+(* "A client that disconnects at any point never disturbs the daemon": for every number of clients
+   and every schedule (calls, deliveries in any order, disconnects anywhere, ticks, housekeeping),
+   OlaServer::ClientRemoved never runs while a service method / Universe::UpdateDependants is on the
+   stack (the model's hazard flag stays false).  Holds for the code with fixes/02 (RpcServer defers
+   the notification to the event loop); it was refuted by a witness schedule before that fix
+   (finding C04-sink-push-reentrant-close). *)
+Theorem c04_disconnect_safe : forall n ops, st_hz (run (init_state n) ops) = false.
+Proof. exact never_hazard. Qed.
+Print Assumptions c04_disconnect_safe.
+
+(* Invariants of every reachable state (any number of clients, any schedule): sink sets are
+   duplicate free and contain only clients that still have a session; between steps no close
+   notification is pending and no service method is running. *)
+Theorem c04_reachable_wf : forall n ops,
+  let st := run (init_state n) ops in
+  (forall x, In x (sv_unis (st_sv st)) ->
+     NoDup (u_sinks x) /\ forall s, In s (u_sinks x) -> sv_alive (st_sv st) s = true) /\
+  st_pend st = [] /\ st_busy st = false.
 Proof.
-  exists 3, [OReg 0 1 true; OSrv 0; ODisc 0; OSend true false 2 1 (Some 100) [10; 11]; OSrv 2].
-  vm_compute. reflexivity.
+  intros n ops. cbn zeta. split; [exact (ok_reachable n ops)|].
+  assert (quiet (init_state n)) as Q0 by (repeat split).
+  pose proof (quiet_run (init_state n) ops Q0) as Q. unfold quiet in Q. destruct Q as (A & B & C). split; assumption.
 Qed.
-Print Assumptions c04_disconnect_safe_refuted.
+Print Assumptions c04_reachable_wf.
+
+(* FIDELITY, any number of sources, any mix of open and half-closed sinks, no side hypotheses on
+   the sink sets.  Let st0 be ANY reachable state and st the state in which srv_step runs the
+   service method for client c (st0 with c's request popped and the busy mark set; see
+   c04_fifo_partial for that shape).  When UpdateDmxData / StreamDmxData applies (d,p) from c to the
+   existing universe x:
+   - the source stored for (c,x) is exactly (d cut to 512 slots, now, clamped p);
+   - the universe's active priority is the highest priority among the live stored sources (L), and
+     with G the live sources at that priority: if the merge reports a change, c's new source is in
+     G and the frame is the HTP merge of exactly the frames in G (HTP mode; for |G| = 1 that is the
+     frame itself) or exactly c's frame, no member of G being newer (LTP mode); otherwise the frame
+     is kept;
+   - on a change every registered sink whose connection is open gets exactly one push with this
+     universe number, that priority and that frame appended to its channel; clients that are not
+     sinks (or have closed) are untouched; without a change no client is touched;
+   - a fetch of x processed at that point, from any client, returns exactly that universe number,
+     priority and frame. *)
+Theorem c04_fidelity : forall n ops c k' x d p,
+  let st0 := run (init_state n) ops in
+  let st := set_busy (set_cl st0 c k') true in
+  find_uni (sv_unis (st_sv st0)) (u_id x) = Some x ->
+  let st' := apply_dmx st c x d p in
+  let src := {| s_data := dmx_set d; s_ts := st_now st0; s_prio := clamp_prio p |} in
+  cd_find (sv_cdata (st_sv st')) (c, u_id x) = Some src /\
+  exists x2 ch,
+    find_uni (sv_unis (st_sv st')) (u_id x) = Some x2 /\
+    src_memb c (u_srcs x2) = true /\ u_sinks x2 = u_sinks x /\
+    (let L := lives (st_now st0) (sv_cdata (st_sv st')) (u_id x) (u_srcs x2) in
+     let G := group L in
+     u_aprio x2 = top L /\
+     (ch = false -> u_buf x2 = u_buf x) /\
+     (ch = true -> In (c, src) G /\
+        (u_htp x = true -> u_buf x2 = fold_left htp (map (fun e => s_data (snd e)) G) []) /\
+        (u_htp x = false -> u_buf x2 = dmx_set d /\
+                            (forall e, In e G -> s_ts (snd e) <= st_now st0 \/ G = [(c, src)])))) /\
+    (ch = true -> forall s, In s (u_sinks x) -> k_closed (st_cl st s) = false ->
+       k_s2c (st_cl st' s) = k_s2c (st_cl st s) ++ [SPush (u_id x) (u_aprio x2) (u_buf x2)]) /\
+    (ch = false -> st_cl st' = st_cl st) /\
+    (forall y, ~ In y (u_sinks x) \/ k_closed (st_cl st y) = true -> st_cl st' y = st_cl st y) /\
+    (forall rid y, snd (handle_req st' y (RGet rid (u_id x))) = Some (SDmx rid (u_id x) (u_aprio x2) (u_buf x2))).
+Proof.
+  intros n ops c k' x d p st0 st Hf.
+  apply (apply_general st c x d p).
+  - exact Hf.
+  - exact (ok_reachable n ops).
+  - apply pend_closed_reachable. cbn.
+    assert (quiet (init_state n)) as Q0 by (repeat split).
+    pose proof (quiet_run (init_state n) ops Q0) as Q. unfold quiet in Q. destruct Q as (A & B & C). exact A.
+Qed.
+Print Assumptions c04_fidelity.
+
+(* what "live", "top" and "group" mean, and HTP pointwise *)
+Theorem c04_merge_meaning :
+  (forall now s, live now s = true <-> s_ts s <> 0 /\ now < s_ts s + 2500000 /\ s_data s <> []) /\
+  (forall L e, In e (group L) <-> In e L /\ s_prio (snd e) = top L) /\
+  (forall a b i, nth i (htp a b) 0 = N.max (nth i a 0) (nth i b 0)) /\
+  (forall a b, length (htp a b) = Nat.max (length a) (length b)).
+Proof.
+  split.
+  { intros now s. unfold live. change TIMEOUT_US with 2500000.
+    rewrite !andb_true_iff, !negb_true_iff, N.eqb_neq, N.ltb_lt.
+    destruct (s_data s); intuition (try discriminate; try congruence). }
+  split.
+  { intros L e. unfold group, at_prio. rewrite filter_In, N.eqb_eq. tauto. }
+  split; [intros; apply htp_nth|intros; apply htp_length].
+Qed.
+Print Assumptions c04_merge_meaning.
+
+(* FIFO, history level, every schedule: for every sender c the frames the server has applied for c
+   form, in order, a subsequence of a prefix (consumed) of the frames c sent; the rest of what c
+   sent (tail) is, while c's session exists, exactly what is still queued in c's channel, in order.
+   (Subsequence rather than prefix because a send to a universe that does not exist is answered
+   with an error / dropped and never applied.) *)
+Theorem c04_fifo : forall n ops c,
+  let st := run (init_state n) ops in
+  exists consumed tail,
+    sentc st c = consumed ++ tail /\ subseq (appc st c) consumed /\
+    (sv_alive (st_sv st) c = true -> tail = pend_sends (k_c2s (st_cl st c))).
+Proof. exact applied_in_send_order. Qed.
+Print Assumptions c04_fifo.
 
 (* hypotheses of c04_fidelity_partial are satisfiable, with a registered sink *)
 Example c04_fidelity_nonvacuous :
